@@ -257,6 +257,39 @@ def check(ctx):
     else:
         b = bind_args(oinit, octor[0])
         ua = b.get(uparam)
+        for _ in range(3):
+            # a local that merely carries the parameter (the formal of an inlined helper)
+            if isinstance(ua, ast.Name) and ua.id != optparam:
+                dd_ = reaching_assignments(prog, init, ua.id, octor[0])
+                if len(dd_) == 1 and isinstance(dd_[0], ast.Name):
+                    ua = dd_[0]
+                    continue
+            break
+        # a file with defaults derived from other options (``tol_noise = ... self.get("tol_fun")``) is evaluated when it is
+        # loaded: it must be loaded after the user's dict is applied, i.e. it is not the constructor's file (the
+        # constructor loads its file first and overlays the user's dict afterwards)
+        from .common import deref_expr
+
+        def _file_of(e):
+            if e is None:
+                return None
+            txt = [n.value for n in ast.walk(deref_expr(prog, init, e)) if isinstance(n, ast.Constant) and isinstance(n.value, str)]
+            for f_, tag in ((ini.basic, "basic"), (ini.advanced, "advanced")):
+                base = f_.path.rsplit("/", 1)[-1]
+                if any(t_.endswith(base) for t_ in txt):
+                    return f_
+            return None
+
+        def _derived(f_):
+            return sorted(k_ for k_, v_, _d in f_.options if "self.get(" in v_ or "self[" in v_)
+
+        cf = _file_of(b.get(oinit.params[1]))
+        if cf is not None:
+            ctx.check(not _derived(cf), init, octor[0], "the constructor's file has no default derived from another option",
+                      f"the Options constructor loads {cf.path.rsplit('/', 1)[-1]} before the user's options are applied, but its defaults {_derived(cf)[:3]} are derived from other options: they are computed from the defaults, not from the user's values",
+                      construct="derived defaults evaluated before the user's options")
+        else:
+            ctx.note("the option file handed to the Options constructor could not be identified (derived-default order not decided)")
         ctx.check(ua is not None and canon(ua) == optparam, init, octor[0], "Options constructed with the caller's options dict", "the caller's options are not handed to the Options constructor", construct=f"user_options={canon(ua)}")
         ctx.check(all(icfg.dominates(icfg.node_of(octor[0]).id, icfg.node_of(a).id) for a in adv), init, adv[0], "user options are protected before the advanced file loads", "the advanced file is loaded before the user's options are applied and protected", construct="advanced load before user options")
 
